@@ -299,6 +299,19 @@ class _AttrBase(Prop):
                     t = H.tags.div(class_=x)
                     t.add_class(H.HTML("zz"))
                     t.remove_class("zz")
+                elif way == "class_merge_html_then_has":
+                    # a question asked in between changes nothing
+                    t = H.tags.div(class_=x)
+                    t.add_class(H.HTML("zz"))
+                    t.has_class("zz"); t.has_class(x); t.has_class("nope")
+                    return t.get_html_string().replace(' zz"', '"', 1)
+                elif way == "from_attrs_plus_kw":
+                    # a new tag from another tag's attribute map plus a keyword for the same name
+                    a_ = H.tags.div(class_=H.HTML("btn"))
+                    return H.tags.span(a_.attrs, class_=x).get_html_string()
+                elif way == "from_attrs_dict_plus_kw":
+                    a_ = H.tags.div(class_=H.HTML("btn"))
+                    return H.tags.span(dict(a_.attrs), {"class": x}).get_html_string()
                 elif way in ("doc_html_class", "doc_html_style"):
                     # attribute arguments of a document whose sole content is the caller's own <html> element
                     nm = "class" if way == "doc_html_class" else "style"
@@ -374,7 +387,8 @@ class C03(_AttrBase):
         for b in blocks:
             gens.append({"kind": "cprange", "lo": b * step, "hi": b * step + step - 1, "path": "attr"})
         ways = ["kw", "dict", "setitem", "update", "void", "mid", "class_then_remove_other", "class_then_remove_absent",
-                "class_merge_html_then_remove", "doc_html_class", "doc_html_style", "doc_kw"]
+                "class_merge_html_then_remove", "class_merge_html_then_has", "from_attrs_plus_kw", "from_attrs_dict_plus_kw",
+                "doc_html_class", "doc_html_style", "doc_kw"]
         tokens = ["a&b", 'x"y', "it's", "<b>", "p>q", "&amp;", "é&", 'a"b\'c<d>e&f']
         for s in gamma.HOSTILE + tokens:
             for way in ways:
